@@ -2,6 +2,7 @@ from pedal.core.commands import gently
 from pedal.core.report import MAIN_REPORT
 from pedal.questions import _name_hash, SETTING_SHOW_CASE_DETAILS, load_question
 from pedal.questions.feedbacks import show_question
+from pedal.questions.constants import TOOL_NAME
 
 
 class Pool:
@@ -18,8 +19,9 @@ class Pool:
         self.seed = seed
         self.report = report
         if position is None:
-            position = Pool._POOL_TRACKER
-            Pool._POOL_TRACKER += 1
+            # Counted per report: the first pool of every grading is pool 0
+            position = report[TOOL_NAME]['pools']
+            report[TOOL_NAME]['pools'] += 1
         self.position = position
 
     def __enter__(self):
